@@ -101,7 +101,7 @@ static void agg_merge_file(Agg& a, const std::string& path) {
 
 struct Opts {
 	std::string cmd, profile = "C01", tier = "quick", out, known = "known_findings.txt", replay_dir = "replays", file;
-	uint64_t seed = 1; double secs = 10; int workers = 8; uint64_t max_runs = ~0ull; int wall = 20; int noise_every = 20; bool print_plan = false; bool no_shrink = false;
+	uint64_t seed = 1; double secs = 10; int workers = 8; uint64_t max_runs = ~0ull; int wall = 30; int noise_every = 20; bool print_plan = false; bool no_shrink = false;
 	uint64_t one_seed = 0; int passthrough = 0;
 };
 
@@ -120,6 +120,14 @@ static void worker(const Opts& o, int w, const std::string& aggpath, double dead
 		Plan pl; bool have_plan = plan_from_text(r.plan_text, pl);
 		if (have_plan) a.env_hist[env_key(pl.env)] += 1;
 		if (r.status == 3) { a.harness_msg = r.detail + " (seed " + std::to_string(seed) + ")"; break; }
+		if (r.status == 2 && r.timed_out) {
+			// The wall-clock backstop is not deterministic (machine load): on its own it is only
+			// 'inconclusive'.  It becomes a reported hang only if the same plan runs into the backstop
+			// again with three times the limit; otherwise the run is counted and dropped.
+			Plan tp; bool again = false;
+			if (plan_from_text(r.plan_text, tp)) { RunResult r3 = run_in_child(&tp, o.profile, o.tier, seed, o.wall * 3); again = r3.status == 2 && r3.timed_out; if (again) r = r3; }
+			if (!again) { --a.viol; ++a.ok; a.counters[c_budget_inconclusive] += 1; continue; }
+		}
 		if (r.status == 2) {
 			Viol v; v.idx = idx; v.seed = seed; v.oracle = r.oracle; v.site = r.site; v.detail = r.detail; v.plan_text = r.plan_text; v.step = r.step; v.fingerprint = r.fingerprint; v.timed_out = r.timed_out;
 			a.viols.push_back(v);
@@ -147,6 +155,7 @@ static void worker(const Opts& o, int w, const std::string& aggpath, double dead
 
 // ---------------------------------------------------------------- gate / minimise / replay
 static bool same_class(const RunResult& r, const std::string& oracle, const std::string& site) {
+	if (r.status == 2 && r.timed_out) return r.oracle == oracle;      // where the wall clock strikes varies
 	return r.status == 2 && r.oracle == oracle && r.site == site;
 }
 
@@ -279,9 +288,10 @@ static int cmd_run(const Opts& o) {
 		done_classes.insert(cls);
 		Plan p; std::string err;
 		if (!plan_from_text(v.plan_text, p, &err)) { fprintf(stderr, "HARNESS-ERROR: cannot parse plan of failing seed %llu: %s\n", (unsigned long long)v.seed, err.c_str()); exit_code = 2; continue; }
-		int wall = v.timed_out ? o.wall * 2 : o.wall;
+		int wall = v.timed_out ? o.wall * 3 : o.wall;
 		// gate: the failing seed must fail the same way twice more, with identical allocation fingerprints
 		RunResult g1, g2; bool ok1 = reproduces(p, v.oracle, v.site, wall, &g1), ok2 = reproduces(p, v.oracle, v.site, wall, &g2);
+		if (v.timed_out && (!ok1 || !ok2)) { a.counters[c_budget_inconclusive] += 1; continue; }      // a wall-clock timeout that does not repeat is inconclusive, never a violation or a harness fault
 		if (!ok1 || !ok2 || (!v.timed_out && g1.fingerprint != g2.fingerprint)) {
 			fprintf(stderr, "HARNESS-NONDETERMINISM: seed %llu (%s at %s) did not reproduce identically (%d %d, fp %llx %llx); not reported as a violation\n",
 				(unsigned long long)v.seed, v.oracle.c_str(), v.site.c_str(), int(ok1), int(ok2), (unsigned long long)g1.fingerprint, (unsigned long long)g2.fingerprint);
